@@ -51,7 +51,7 @@ TraceCleanup == Consume("CleanupStale") /\ CleanupStale(ev.n) /\ StateOK(ev.n)
 TraceReset ==
   /\ Consume("Reset")
   /\ up' = {ToSet(x) : x \in ToSet(ev.up)} /\ pend' = {} /\ gone' = {}
-  /\ cfg' = [loc |-> [a \in Agent |-> ToSet(ev.loc[a])], hops |-> [a \in Agent |-> ev.hops[a]]]
+  /\ cfg' = [loc |-> [a \in Agent |-> ToSet(ev.loc[a])], hops |-> [a \in Agent |-> ev.hops[a]], kind |-> ev.kind]
   /\ ctr' = [a \in Agent |-> Cardinality(ToSet(ev.loc[a]))]
   /\ seen' = [a \in Agent |-> {}] /\ tbl' = [a \in Agent |-> {}] /\ net' = EmptyBag
   /\ nann' = [a \in Agent |-> 0] /\ proc' = {} /\ fwd' = {} /\ sent' = EmptyBag
